@@ -7,16 +7,20 @@ import (
 	"sort"
 	"strings"
 	"sync"
+	"time"
 
 	"google.golang.org/protobuf/proto"
 	"google.golang.org/protobuf/reflect/protoreflect"
 	"google.golang.org/protobuf/types/known/fieldmaskpb"
+
+	"google.golang.org/protobuf/types/known/timestamppb"
 
 	"github.com/smart-core-os/sc-api/go/traits"
 	"github.com/smart-core-os/sc-golang/internal/testproto"
 	"github.com/smart-core-os/sc-golang/pkg/resource"
 	"github.com/smart-core-os/sc-golang/pkg/trait"
 	"github.com/smart-core-os/sc-golang/pkg/trait/enterleavesensorpb"
+	"github.com/smart-core-os/sc-golang/pkg/trait/hailpb"
 	"github.com/smart-core-os/sc-golang/pkg/trait/metadatapb"
 	"github.com/smart-core-os/sc-golang/pkg/trait/parentpb"
 )
@@ -460,16 +464,109 @@ func aliasRaceRun(w *World) {
 
 func aliasModelsRun(w *World) {
 	t := w.Tape
-	switch t.Choose(5) {
+	switch t.Choose(6) {
 	case 0:
 		aliasParent(w)
 	case 1:
 		aliasMetadata(w)
 	case 2:
 		aliasEnterLeave(w)
+	case 3:
+		aliasHail(w)
 	default:
 		aliasReflective(w)
 	}
+}
+
+// aliasHail: a model with housekeeping of its own. The hail model's keep-alive collector looks at every stored hail
+// whenever one is created (at most once per keep-alive period): whatever it does with them, a message that was handed
+// to a caller or a subscriber stays what it was, and the store only changes through writes that subscribers are told of.
+func aliasHail(w *World) {
+	t := w.Tape
+	mon := &aliasMon{w: w, key: map[string]any{"model": "hailpb"}}
+	keep := []time.Duration{time.Second, 30 * time.Second}[t.Choose(2)]
+	m := hailpb.NewModel(hailpb.WithKeepAlive(keep))
+	ctx, cancel := context.WithCancel(context.Background())
+	defer cancel()
+	if t.Flag(2, 3) {
+		ch := m.PullHails(ctx, resource.WithBackpressure(t.Flag(1, 2)))
+		w.Go("s", true, func(task *Task) {
+			for {
+				task.Yield("recv")
+				e, ok := <-ch
+				if !ok {
+					return
+				}
+				mon.track("subscriber: PullHails old value", e.OldValue)
+				mon.track("subscriber: PullHails new value", e.NewValue)
+			}
+		})
+	}
+	var ids []string
+	n := 3 + t.Choose(7)
+	w.Go("w", false, func(task *Task) {
+		for i := 0; i < n; i++ {
+			task.Yield("op")
+			var desc string
+			pick := func() string {
+				if len(ids) == 0 {
+					return "nope"
+				}
+				return ids[t.Choose(len(ids))]
+			}
+			switch t.Choose(8) {
+			case 0, 1:
+				h, err := m.CreateHail(&traits.Hail{Origin: &traits.Hail_Location{Name: fmt.Sprint("o", i)}})
+				desc = "CreateHail()"
+				if err == nil {
+					ids = append(ids, h.Id)
+					mon.track("caller: result of "+desc, h)
+				}
+			case 2:
+				// the state alone (clients need not say when a hail arrived)
+				id := pick()
+				h, _ := m.UpdateHail(&traits.Hail{Id: id, State: traits.Hail_ARRIVED}, resource.WithUpdatePaths("state"))
+				desc = "UpdateHail(" + id + ", state=ARRIVED, mask state)"
+				mon.track("caller: result of "+desc, h)
+			case 3:
+				id := pick()
+				at := time.Now().Add(-time.Duration(t.Choose(3)) * time.Minute)
+				h, _ := m.UpdateHail(&traits.Hail{Id: id, State: traits.Hail_ARRIVED, ArriveTime: timestamppb.New(at)})
+				desc = "UpdateHail(" + id + ", arrived)"
+				mon.track("caller: result of "+desc, h)
+			case 4:
+				id := pick()
+				h, _ := m.GetHail(id)
+				desc = "GetHail(" + id + ")"
+				mon.track("caller: "+desc, h)
+			case 5:
+				desc = "ListHails()"
+				for _, h := range m.ListHails() {
+					mon.track("caller: "+desc, h)
+				}
+			case 6:
+				d := []time.Duration{500 * time.Millisecond, 2 * time.Second, 40 * time.Second}[t.Choose(3)]
+				task.Sleep(d) // the collector may run again at the next create
+				desc = "pause " + d.String()
+			default:
+				id := pick()
+				h, _ := m.DeleteHail(id, resource.WithAllowMissing(true))
+				desc = "DeleteHail(" + id + ")"
+				mon.track("caller: result of "+desc, h)
+			}
+			task.Note("%s", desc)
+			if !mon.check(desc) {
+				return
+			}
+		}
+	})
+	w.Run()
+	mon.check("the end of the run")
+	w.MarkNontrivial()
+	cancel()
+	w.Run()
+	w.Advance(41 * time.Second) // the collector's timer runs out
+	w.Run()
 }
 
 func aliasParent(w *World) {
